@@ -68,7 +68,7 @@ func (m *c13mem) expect(a uint32) byte {
 }
 
 func C13(r *vf.Run) {
-	r.Rule = "histories of 1-40 Attach calls over overlapping/adjacent/nested/re-attached aligned ranges and misaligned ones, with instrumented fake memories and real memory.RAM/ROM at non-zero offsets; routing of every block in and next to each range probed through EaRead/EaWrite against a shadow map; EaDump over ranges with every start residue and lengths {1,2,15,16,17,31,32,33,4096} across memory/memory and memory/hole boundaries with sentinel-filled output; a cell is (overlap shape), (misaligned residue) or (dump: start residue, length class, boundary kind)"
+	r.Rule = "histories of 1-40 Attach calls over overlapping/adjacent/nested/re-attached aligned ranges (from one block to a dozen whole banks, with small overlays inside wide ranges) and misaligned ones, with instrumented fake memories and real memory.RAM/ROM at non-zero offsets; routing of every block in and next to each range, and of the same offsets in neighbouring banks and pages, probed through EaRead/EaWrite against a shadow map; EaDump over ranges with every start residue and lengths {1,2,15,16,17,31,32,33,4096} across memory/memory and memory/hole boundaries with sentinel-filled output; a cell is (overlap shape), (misaligned residue) or (dump: start residue, length class, boundary kind)"
 	r.Assume = []string{"Attach ranges beyond 24 bits or with start > end are outside 'successful Attach calls over aligned ranges'"}
 
 	type probeRes struct {
@@ -115,6 +115,10 @@ func C13(r *vf.Run) {
 		probe := func(a uint32, why string) bool {
 			blk := a >> 4
 			mi, attached := shadow[blk]
+			readsBefore := -1
+			if attached && mems[mi].fake != nil {
+				readsBefore = mems[mi].fake.reads
+			}
 			res := read(b, a)
 			r.Eval(1)
 			if !attached {
@@ -134,6 +138,10 @@ func C13(r *vf.Run) {
 				return false
 			}
 			want := m.expect(a)
+			if m.fake != nil && m.fake.reads == readsBefore {
+				r.Fail("routing-read", fmt.Sprintf("read of $%06x was not delivered to memory %d, the last one attached over block $%05x (%s)", a, mi, blk, why), hist)
+				return false
+			}
 			if m.fake != nil && m.fake.lastAddr != a {
 				r.Fail("address-modified", fmt.Sprintf("memory %d received address $%06x for a read of $%06x (%s)", mi, m.fake.lastAddr, a, why), hist)
 				return false
@@ -188,6 +196,18 @@ func C13(r *vf.Run) {
 			if eb < 0xFFFFF {
 				blks = append(blks, eb+1)
 			}
+			// the same in-bank offsets in the neighbouring banks (and 4 KiB pages): a table that
+			// shares or mirrors sub-tables must not leak this attach into them
+			for _, stride := range []uint32{0x1000, 0x100} {
+				for j := uint32(1); j <= 6; j++ {
+					for _, b := range []uint32{sb, eb} {
+						if b >= j*stride {
+							blks = append(blks, b-j*stride)
+						}
+						blks = append(blks, b+j*stride)
+					}
+				}
+			}
 			for k := 0; k < 8; k++ {
 				blks = append(blks, (winBase>>4)+uint32(g.Intn(winBlocks)))
 			}
@@ -222,6 +242,12 @@ func C13(r *vf.Run) {
 					shape = "nested"
 					sb = ps + uint32(g.Intn(int(pe-ps+1)))
 					eb = sb + uint32(g.Intn(int(pe-sb+1)))
+					if g.Bool() && eb-sb > 256 { // a small overlay inside a large range
+						eb = sb + uint32(g.Intn(256))
+					}
+					if pe-ps >= 3*4096 {
+						shape = "nested-in-wide"
+					}
 				case 2:
 					shape = "adjacent-after"
 					sb = pe + 1
@@ -243,6 +269,15 @@ func C13(r *vf.Run) {
 					sb = ps - uint32(g.Intn(int(min(ps, 16))+1))
 					eb = pe + uint32(g.Intn(16))
 				}
+			} else if g.Intn(6) == 0 {
+				// a wide range covering 3..12 whole banks, ends not necessarily bank-aligned
+				shape = "wide"
+				nb := uint32(3 + g.Intn(10))
+				sb = uint32(g.Intn(256-int(nb)-1))<<12 - uint32(g.Intn(3))*uint32(g.Intn(4096))
+				if sb > 0xFFFFF {
+					sb = 0
+				}
+				eb = sb + nb*4096 + uint32(g.Intn(3))*uint32(g.Intn(4096)) + 4095
 			} else {
 				sb = winBase>>4 + uint32(g.Intn(winBlocks))
 				eb = sb + uint32([]int{0, 1, 2, 15, 16, 255, 256, 2047, g.Intn(4096)}[g.Intn(9)])
@@ -258,7 +293,11 @@ func C13(r *vf.Run) {
 			// memory kind
 			mi := len(mems)
 			m := &c13mem{}
-			switch g.Intn(4) {
+			kindSel := g.Intn(4)
+			if end-start > 0x20000 {
+				kindSel = 3 // wide ranges use the instrumented fake (no backing array needed)
+			}
+			switch kindSel {
 			case 0: // real RAM with an attach offset equal to start
 				m.data = g.Bytes(int(end - start + 1))
 				m.offset = start
@@ -429,7 +468,7 @@ func C13(r *vf.Run) {
 		})
 	}
 	if r.OnlyPhase == "" {
-		for _, c := range []string{"attach:nested", "attach:reattach-same", "attach:adjacent-after", "attach:overlap-tail", "dump-boundary:mem>mem", "dump-boundary:mem>hole", "dump-boundary:hole>mem"} {
+		for _, c := range []string{"attach:nested", "attach:wide", "attach:nested-in-wide", "attach:reattach-same", "attach:adjacent-after", "attach:overlap-tail", "dump-boundary:mem>mem", "dump-boundary:mem>hole", "dump-boundary:hole>mem"} {
 			r.Require(c)
 		}
 	}
